@@ -3,7 +3,75 @@
 use bt_harness::{a, sl, S};
 use bigtools::verif_hooks::{rtree_index_bytes, rtree_search};
 
+/// A reader that returns at most 7 bytes per `read` call (legal for `Read`: whoever needs a whole node
+/// has to loop or use `read_exact`).
+struct ShortReads(std::io::Cursor<Vec<u8>>);
+impl std::io::Read for ShortReads {
+    fn read(&mut self, buf: &mut [u8]) -> std::io::Result<usize> {
+        let n = buf.len().min(7);
+        self.0.read(&mut buf[..n])
+    }
+}
+impl std::io::Seek for ShortReads {
+    fn seek(&mut self, pos: std::io::SeekFrom) -> std::io::Result<u64> {
+        self.0.seek(pos)
+    }
+}
+
+/// Public-API stage: (9 b ((chrom start end) ...) ((chrom s e) ...) zoom_resolution).  One value per block
+/// (items_per_slot = 1), fan-out b, one manual zoom level; every query first asks the zoom index and then
+/// the main index through the SAME reader, which only ever gets short reads.
+fn run_api(c: &S) -> S {
+    use bt_harness::bbi::{write_bigwig, Opts};
+    let b = c.at(1).u32();
+    let zres = c.at(4).u32();
+    let name = |k: u32| format!("c{:04}", k);
+    let mut sizes = std::collections::HashMap::new();
+    let mut items = vec![];
+    for s in c.at(2).l() {
+        let (ch, st, en) = (s.at(0).u32(), s.at(1).u32(), s.at(2).u32());
+        let e = sizes.entry(name(ch)).or_insert(0u32);
+        *e = (*e).max(en + 10);
+        items.push((name(ch), bigtools::Value { start: st, end: en, value: 1.0 }));
+    }
+    let o = Opts { compress: false, ips: 1, bs: b, izoom: 160, maxzooms: 10, manual: Some(vec![zres]), sort_all: true };
+    let bytes = match write_bigwig(0, &o, sizes, items, 2) {
+        Ok(x) => x,
+        Err(code) => return sl![a(1), a(code)],
+    };
+    let mut r = match bigtools::BigWigRead::open(ShortReads(std::io::Cursor::new(bytes))) {
+        Ok(r) => r,
+        Err(_) => return sl![a(1), a(2)],
+    };
+    let answers: Vec<S> = c
+        .at(3)
+        .l()
+        .iter()
+        .map(|q| {
+            let (nm, s, e) = (name(q.at(0).u32()), q.at(1).u32(), q.at(2).u32());
+            let _ = r.get_zoom_interval(&nm, s, e, zres).map(|it| it.count());
+            match r.get_interval(&nm, s, e) {
+                Err(_) => sl![a(1), a(1)],
+                Ok(it) => {
+                    let mut out = vec![];
+                    for v in it {
+                        match v {
+                            Ok(v) => out.push(sl![a(v.start), a(v.end)]),
+                            Err(_) => return sl![a(1), a(1)],
+                        }
+                    }
+                    sl![a(0), S::L(out)]
+                }
+            }
+        })
+        .collect();
+    sl![a(0), a(0), S::L(vec![]), S::L(answers)]
+}
+
 fn run(c: &S) -> S {
+    if c.at(0).n() == 9 {
+        return run_api(c);
+    }
     let b = c.at(0).u32();
     let ips = c.at(1).u32();
     let pos = c.at(2).u64();
